@@ -70,7 +70,9 @@ def gen_case(rng, prj=None, ell=None):
         if prj is K.isg and rng.random() < 0.7:
             om = max(-zw / 2, min(zw / 2, om)) if abs(om) > 6 else om
         lon = cm + om
-        if -180 <= lon < 180 and abs(lon - cm) <= 30:
+        # zone 60 east of +180 / zone 1 west of -180: the same meridian written in [-180, 180)
+        lon = lon - 360.0 if lon >= 180 else lon + 360.0 if lon < -180 else lon
+        if abs(om) <= 30:
             break
     lat = pick_lat(rng)
     auto = in_own_zone(prj, zone, lon) and rng.random() < 0.5
@@ -106,7 +108,9 @@ def check_exact(p, lat, lon, zone, ell, prj):
     else:
         p.check(z == zone, key + ':zone-changed', 'tm_exact', inp, z, zone, call)
     cm = central_meridian(prj, z)
-    x, y, _, _ = exact_tm(lat, mpf(lon) - mpf(cm), ell.semimaj, ell.inversef, want_deriv=False)
+    dl = mpf(lon) - mpf(cm)
+    dl = dl - 360 if dl > 180 else dl + 360 if dl < -180 else dl      # the short way round
+    x, y, _, _ = exact_tm(lat, dl, ell.semimaj, ell.inversef, want_deriv=False)
     k0 = mpf(prj.cmscale)
     e_x = k0 * x + mpf(prj.falseeast)
     n_x = k0 * y + (mpf(prj.falsenorth) if lat < 0 else 0)
